@@ -284,7 +284,11 @@ func genDoc(c *core.Ctx, r *gen.R) *doc {
 		c.Count("doc.dangling")
 		if nw > 0 && r.Bool() {
 			wi := len(d.ways) - 1 - r.Intn(nw) // one of the random ways, not the cascade
-			d.ways[wi].Nodes = append(d.ways[wi].Nodes[:1], 9999)
+			if len(d.ways[wi].Nodes) == 0 {
+				d.ways[wi].Nodes = []int64{9999}
+			} else {
+				d.ways[wi].Nodes = append(d.ways[wi].Nodes[:1], 9999)
+			}
 		} else if nr > 0 {
 			d.rels[r.Intn(nr)].Members = append(d.rels[r.Intn(nr)].Members, member{'w', 9998})
 		} else {
